@@ -69,10 +69,11 @@ Print Assumptions C10_column_order_now_sound.
 
 (** The three classes repaired in the tree (update-ignores-unique-index,
     append-mode-bulk-transfer-duplicate-pk, composite-key-validated-in-column-order): their former
-    witnesses are now histories outside every known class whose last statement is rejected. *)
+    witnesses are now histories outside every known class whose last statement is rejected.
+    Later also create-unique-index-over-duplicates. *)
 Theorem C10_repaired_statement_is_rejected :
   forall schemas ss s, c10_repaired schemas ss s ->
-  Inv (fst (step (run (db_init schemas) ss) s)) /\ snd (step (run (db_init schemas) ss) s) = RErrConstraint.
+  Inv (fst (step (run (db_init schemas) ss) s)) /\ rejected (snd (step (run (db_init schemas) ss) s)) = true.
 Proof. exact c10_repaired_holds. Qed.
 Print Assumptions C10_repaired_statement_is_rejected.
 
@@ -133,10 +134,10 @@ Theorem C10_repaired_composite_key_column_order :
 Proof. exact rep_key_column_order. Qed.
 Print Assumptions C10_repaired_composite_key_column_order.
 
-Theorem C10_refuted_create_unique_index_over_duplicates :
-  c10_witness [t_pk0] [SInsert 0 [i3 1 10 0; i3 2 10 0]] (SCreateIndex 1 0 true [1%nat]).
-Proof. exact wit_create_unique_index. Qed.
-Print Assumptions C10_refuted_create_unique_index_over_duplicates.
+Theorem C10_repaired_create_unique_index_over_duplicates :
+  c10_repaired [t_pk0] [SInsert 0 [i3 1 10 0; i3 2 10 0]] (SCreateIndex 1 0 true [1%nat]).
+Proof. exact rep_create_unique_index. Qed.
+Print Assumptions C10_repaired_create_unique_index_over_duplicates.
 
 Theorem C10_refuted_alter_add_unique_unvalidated :
   c10_witness [t_pk0] [SInsert 0 [i3 1 10 0; i3 2 10 0]] (SAddUnique 0 [1%nat]).
